@@ -99,12 +99,17 @@ Utf8Check(s) ==
 IsUtf8(s) == Utf8Check(s).ok
 
 \* String::from_utf8_lossy: every maximal invalid part (error_len bytes; the whole rest if the input ends
-\* inside a sequence) becomes one U+FFFD.  Recursion depth = number of invalid parts.
-RECURSIVE Lossy(_)
-Lossy(s) == LET u == Utf8Check(s) IN
-            IF u.ok THEN s
-            ELSE Slice(s, 1, u.upto) \o <<239, 191, 189>>
-                 \o (IF u.elen = 0 THEN <<>> ELSE Lossy(Slice(s, u.upto + u.elen + 1, Len(s))))
+\* inside a sequence) becomes one U+FFFD.  One pass, scalar by scalar (ASCII runs are copied at once).
+RECURSIVE LossyFrom(_, _, _, _)
+LossyFrom(s, i, n, acc) ==
+    IF i > n THEN acc
+    ELSE IF s[i] < 128
+         THEN LET j == MinOf({k \in i..n : s[k] >= 128} \cup {n + 1}) IN LossyFrom(s, j, n, acc \o Slice(s, i, j - 1))
+    ELSE LET r == Utf8At(s, i, n) IN
+         IF r.ok THEN LossyFrom(s, i + r.w, n, acc \o Slice(s, i, i + r.w - 1))
+         ELSE IF r.w = 0 THEN acc \o <<239, 191, 189>>
+         ELSE LossyFrom(s, i + r.w, n, acc \o <<239, 191, 189>>)
+Lossy(s) == IF AllAscii(s) THEN s ELSE LossyFrom(s, 1, Len(s), <<>>)
 
 (***************************************************************************)
 (* str::trim: removes leading and trailing scalar values with the Unicode  *)
